@@ -18,6 +18,7 @@ import (
 	"encoding/json"
 	"flag"
 	"fmt"
+	"net/http"
 	"os"
 	"sort"
 	"strings"
@@ -50,6 +51,18 @@ type hwCaseC struct {
 	Ehdr     []hwHV `json:"ehdr"`
 	Opts     []hwHV `json:"opts"`
 	Body     string `json:"body"`
+	Gun      string `json:"gun"`     // "" (http gun) | "connect"
+	CSSL     bool   `json:"cssl"`    // connect gun: option connect-ssl
+	CStatus  int    `json:"cstatus"` // connect gun: what the proxy answers to CONNECT
+	MW       *struct {
+		Name string `json:"name"` // headerName of header/date ("" = default)
+		Loc  string `json:"loc"`  // location ("" = default, UTC)
+	} `json:"mw"`
+	Side *struct {
+		AnswLog string `json:"answlog"` // off | all | warning | error
+		Status  int    `json:"status"`  // what the target answers
+		Trace   bool   `json:"trace"`   // httptrace dump + trace
+	} `json:"side"`
 }
 
 type hwCase struct {
@@ -66,6 +79,18 @@ type hwObs struct {
 	Host   string           `json:"host"`
 	Hdr    []targets.Header `json:"hdr"`
 	Body   string           `json:"body"`
+	// CONNECTs the proxy targets saw while the case ran
+	Connects []hwConnect `json:"connects"`
+	// instants (unix seconds, read in the middleware's location) of the header values that are HTTP dates; those
+	// values appear as "DATE" in hdr
+	Dates []int `json:"dates"`
+}
+
+type hwConnect struct {
+	Method string `json:"method"`
+	URI    string `json:"uri"`  // request-target, projected: the gun's target -> "GUNTARGET"
+	Host   string `json:"host"` // likewise
+	TLS    bool   `json:"tls"`  // the client spoke TLS to the proxy
 }
 
 type hwOut struct {
@@ -76,6 +101,9 @@ type hwOut struct {
 	Samples []hwSample      `json:"samples"`
 	Acq     int             `json:"acq"`  // ammo the provider handed out for this file
 	Err     string          `json:"err"`  // provider / decoding error text, "" if none
+	T0      int             `json:"t0"`   // clock (unix seconds) read before the ammo was acquired ...
+	T1      int             `json:"t1"`   // ... and after the shot returned
+	Answ    int             `json:"answ"` // records the gun's answer log gained during the case (0 without answlog)
 	File    string          `json:"file"` // the rendered ammo file (evidence / replay)
 	Via     string          `json:"via"`  // config map shape used for decoding
 }
@@ -94,6 +122,10 @@ type hwEnv struct {
 	guns      map[string]core.Gun
 	agg       *hwAgg
 	gunErrors map[string]string
+	dateLoc   *time.Location                  // location of the header/date middleware of the case being observed (nil: none)
+	answDir   string                          // directory of the guns' answer logs
+	gunTarget string                          // target of the gun of the case being observed (projection of CONNECT lines)
+	proxies   map[string]*targets.ProxyTarget // CONNECT proxies in front of the targets, by (connect-ssl, ssl, status)
 }
 
 func hwNewEnv() *hwEnv {
@@ -111,7 +143,43 @@ func hwNewEnv() *hwEnv {
 	return e
 }
 
+// answPath is the answer-log file of the side-channel gun with that filter.
+func (e *hwEnv) answPath(filter string, trace bool) string {
+	return fmt.Sprintf("%s/answ_%s_%v.log", e.answDir, filter, trace)
+}
+
+// answRecords counts the records of an answer log: the gun writes one REQUEST entry (and one RESPONSE entry) per
+// logged exchange.
+func (e *hwEnv) answRecords(path string) int {
+	b, err := os.ReadFile(path)
+	if err != nil {
+		return -1
+	}
+	return strings.Count(string(b), "\tREQUEST:")
+}
+
+// proxy returns the CONNECT proxy for (connect-ssl, ssl of the origin, answer to CONNECT): it tunnels to the
+// recording target of that scheme.
+func (e *hwEnv) proxy(cssl, ssl bool, status int) *targets.ProxyTarget {
+	k := fmt.Sprintf("%v/%v/%d", cssl, ssl, status)
+	if e.proxies == nil {
+		e.proxies = map[string]*targets.ProxyTarget{}
+	}
+	if p, ok := e.proxies[k]; ok {
+		return p
+	}
+	p := targets.NewProxy("proxy", cssl, e.target(ssl).Addr(), status, e.rec)
+	if !targets.IsLoopback(p.Addr()) {
+		panic("proxy not on loopback")
+	}
+	e.proxies[k] = p
+	return p
+}
+
 func (e *hwEnv) close() {
+	for _, p := range e.proxies {
+		p.Close()
+	}
 	e.plain.Close()
 	e.tls.Close()
 	e.decoy.Close()
@@ -248,7 +316,7 @@ func (e *hwEnv) runCase(cs hwCase) hwOut {
 	if err := json.Unmarshal(cs.C, &c); err != nil {
 		panic(err)
 	}
-	out := hwOut{ID: cs.ID, C: cs.C, Obs: hwObs{Hdr: []targets.Header{}}, Samples: []hwSample{}}
+	out := hwOut{ID: cs.ID, C: cs.C, Obs: hwObs{Hdr: []targets.Header{}, Connects: []hwConnect{}, Dates: []int{}}, Samples: []hwSample{}}
 	yamlShape := cs.ID%2 == 1
 	out.Via = map[bool]string{false: "viper-map", true: "yaml-map"}[yamlShape]
 	typ, file := hwRenderAmmo(&c, e.ammoHost(c.SSL))
@@ -288,18 +356,64 @@ func (e *hwEnv) runCase(cs hwCase) hwOut {
 		pm["preload"] = true
 		out.Via += " preload"
 	}
+	if c.MW != nil {
+		mw := map[string]interface{}{"type": "header/date"}
+		if c.MW.Name != "" {
+			mw["headerName"] = c.MW.Name
+		}
+		if c.MW.Loc != "" {
+			mw["location"] = c.MW.Loc
+		}
+		pm["middlewares"] = []interface{}{hwShape(mw, yamlShape)}
+		e.dateLoc = time.UTC
+		if c.MW.Loc != "" {
+			loc, lerr := time.LoadLocation(c.MW.Loc)
+			if lerr != nil {
+				panic(lerr)
+			}
+			e.dateLoc = loc
+		}
+	} else {
+		e.dateLoc = nil
+	}
 	prov, err := hwDecodeProvider(pm, yamlShape)
 	if err != nil {
 		out.Err = "provider: " + err.Error()
 		return out
 	}
-	g, err := e.gun(c.SSL, c.Compress, nil, "", yamlShape)
+	var g core.Gun
+	gunTarget := ""
+	if c.Gun == "connect" {
+		// the connect gun's target is the proxy; the tunnel leads to the recording target of the case's scheme
+		px := e.proxy(c.CSSL, c.SSL, c.CStatus)
+		gunTarget = px.Addr()
+		g, err = e.gun(c.SSL, c.Compress, map[string]interface{}{"type": "connect", "target": px.Addr(), "connect-ssl": c.CSSL},
+			fmt.Sprintf("connect/%v/%d", c.CSSL, c.CStatus), yamlShape)
+		out.Via += " gun=connect"
+	} else if c.Side != nil {
+		// side channels on: the gun's answer log (own file per filter) and httptrace; the target answers c.Side.Status
+		extra := map[string]interface{}{"httptrace": map[string]interface{}{"dump": c.Side.Trace, "trace": c.Side.Trace}}
+		if c.Side.AnswLog != "off" {
+			extra["answlog"] = map[string]interface{}{"enabled": true, "path": e.answPath(c.Side.AnswLog, c.Side.Trace), "filter": c.Side.AnswLog}
+		}
+		g, err = e.gun(c.SSL, c.Compress, extra, fmt.Sprintf("side/%s/%v", c.Side.AnswLog, c.Side.Trace), yamlShape)
+		e.target(c.SSL).Set(targets.Behaviour{Kind: "status", Status: c.Side.Status})
+		defer e.target(c.SSL).Set(targets.Behaviour{})
+		out.Via += " side-channels"
+	} else {
+		g, err = e.gun(c.SSL, c.Compress, nil, "", yamlShape)
+	}
 	if err != nil {
 		out.Err = "gun: " + err.Error()
 		return out
 	}
+	answBefore := 0
+	if c.Side != nil && c.Side.AnswLog != "off" {
+		answBefore = e.answRecords(e.answPath(c.Side.AnswLog, c.Side.Trace))
+	}
 	e.rec.Drain()
 	e.agg.drain()
+	out.T0 = vt.Small(time.Now().Unix())
 	stop := hwRunProvider(prov, e.log)
 	for {
 		a, ok := prov.Acquire()
@@ -307,7 +421,14 @@ func (e *hwEnv) runCase(cs hwCase) hwOut {
 			break
 		}
 		out.Acq++
-		g.Shoot(a)
+		func() {
+			defer func() { // "a failed sample, not a crash"
+				if r := recover(); r != nil {
+					out.Err = fmt.Sprintf("gun panicked: %v", r)
+				}
+			}()
+			g.Shoot(a)
+		}()
 		prov.Release(a)
 		if out.Acq > 3 {
 			break
@@ -316,14 +437,34 @@ func (e *hwEnv) runCase(cs hwCase) hwOut {
 	if err := stop(); err != nil {
 		out.Err = "provider run: " + err.Error()
 	}
+	out.T1 = vt.Small(time.Now().Unix())
+	if c.Side != nil && c.Side.AnswLog != "off" {
+		out.Answ = e.answRecords(e.answPath(c.Side.AnswLog, c.Side.Trace)) - answBefore
+	}
 	out.Samples = append(out.Samples, e.agg.drain()...)
+	e.gunTarget = gunTarget
 	e.observe(&out, c.SSL)
 	return out
 }
 
 // observe fills out.Obs from what the servers recorded since the last drain.
 func (e *hwEnv) observe(out *hwOut, ssl bool) {
+	if out.Obs.Connects == nil {
+		out.Obs.Connects = []hwConnect{}
+	}
+	if out.Obs.Dates == nil {
+		out.Obs.Dates = []int{}
+	}
+	proj := func(s string) string {
+		if s == e.gunTarget && s != "" {
+			return "GUNTARGET"
+		}
+		return "?" + s
+	}
 	for _, ev := range e.rec.Drain() {
+		if ev.Ev == "Connect" {
+			out.Obs.Connects = append(out.Obs.Connects, hwConnect{Method: ev.Method, URI: proj(ev.URI), Host: proj(ev.Host), TLS: ev.TLS})
+		}
 		if ev.Ev != "Req" {
 			continue
 		}
@@ -337,6 +478,18 @@ func (e *hwEnv) observe(out *hwOut, ssl bool) {
 		out.Obs.Hdr = ev.Hdr
 		if out.Obs.Hdr == nil {
 			out.Obs.Hdr = []targets.Header{}
+		}
+		if e.dateLoc != nil {
+			// projection: a value that is an HTTP date (http.TimeFormat) becomes the token DATE; its instant, read in
+			// the middleware's location, travels as unix seconds
+			for i := range out.Obs.Hdr {
+				for j, v := range out.Obs.Hdr[i].V {
+					if tm, perr := time.ParseInLocation(http.TimeFormat, v, e.dateLoc); perr == nil {
+						out.Obs.Hdr[i].V[j] = "DATE"
+						out.Obs.Dates = append(out.Obs.Dates, vt.Small(tm.Unix()))
+					}
+				}
+			}
 		}
 		if len(ev.TE) > 0 {
 			out.Obs.Hdr = append(out.Obs.Hdr, targets.Header{N: "Transfer-Encoding", V: ev.TE})
@@ -446,7 +599,7 @@ func (e *hwEnv) runFile(cs hwCase) []hwOut {
 	outs := []hwOut{}
 	fail := func(msg string) []hwOut {
 		for k := range c.Entries {
-			outs = append(outs, hwOut{ID: cs.ID, K: k + 1, C: cs.C, Obs: hwObs{Hdr: []targets.Header{}}, Samples: []hwSample{}, Err: msg, File: file, Via: via})
+			outs = append(outs, hwOut{ID: cs.ID, K: k + 1, C: cs.C, Obs: hwObs{Hdr: []targets.Header{}, Connects: []hwConnect{}, Dates: []int{}}, Samples: []hwSample{}, Err: msg, File: file, Via: via})
 		}
 		return outs
 	}
@@ -471,7 +624,8 @@ func (e *hwEnv) runFile(cs hwCase) []hwOut {
 		g.Shoot(a)
 		prov.Release(a)
 		if acq <= len(c.Entries) {
-			o := hwOut{ID: cs.ID, K: acq, C: cs.C, Obs: hwObs{Hdr: []targets.Header{}}, Samples: append([]hwSample{}, e.agg.drain()...), File: file, Via: via}
+			o := hwOut{ID: cs.ID, K: acq, C: cs.C, Obs: hwObs{Hdr: []targets.Header{}, Connects: []hwConnect{}, Dates: []int{}}, Samples: append([]hwSample{}, e.agg.drain()...), File: file, Via: via}
+			e.gunTarget, e.dateLoc = "", nil
 			e.observe(&o, c.SSL)
 			outs = append(outs, o)
 		}
@@ -484,7 +638,7 @@ func (e *hwEnv) runFile(cs hwCase) []hwOut {
 		runErr = "provider run: " + err.Error()
 	}
 	for k := len(outs); k < len(c.Entries); k++ { // entries the provider never handed out
-		outs = append(outs, hwOut{ID: cs.ID, K: k + 1, C: cs.C, Obs: hwObs{Hdr: []targets.Header{}}, Samples: []hwSample{}, File: file, Via: via})
+		outs = append(outs, hwOut{ID: cs.ID, K: k + 1, C: cs.C, Obs: hwObs{Hdr: []targets.Header{}, Connects: []hwConnect{}, Dates: []int{}}, Samples: []hwSample{}, File: file, Via: via})
 	}
 	for i := range outs {
 		outs[i].Acq = acq
@@ -508,6 +662,11 @@ func httpwireMain(args []string) {
 	case "cases":
 		e := hwNewEnv()
 		defer e.close()
+		e.answDir = *outPath + ".answlog"
+		if err := os.MkdirAll(e.answDir, 0o755); err != nil {
+			panic(err)
+		}
+		defer os.RemoveAll(e.answDir)
 		f, err := os.ReadFile(*casesPath)
 		if err != nil {
 			panic(err)
@@ -539,23 +698,30 @@ func httpwireMain(args []string) {
 // ---------------------------------------------------------------------------------------- conn mode
 
 type hwConnEv struct {
-	Ev        string   `json:"ev"` // Run | Shoot | Conn | Req | End
-	Run       int      `json:"run"`
-	N         int      `json:"n"`
-	R         int      `json:"r"`
-	KeepAlive bool     `json:"keepalive"`
-	SSL       bool     `json:"ssl"`
-	Inst      string   `json:"inst"`
-	URI       string   `json:"uri"`
-	Conn      string   `json:"conn"`
-	State     string   `json:"state"`
-	Proto     int      `json:"proto"`
-	Net       int      `json:"net"`
-	OK        bool     `json:"ok"`                 // Shoot / Req: the exchange ended with a complete answer (sample proto 200, net 0)
-	Insts     []string `json:"insts,omitempty"`    // Run: the instances
-	Opts      string   `json:"opts,omitempty"`     // Run: non-default client options of the gun
-	GapMs     int      `json:"gap_ms,omitempty"`   // Run: scripted idle gap between the shots of an instance
-	Tolerant  bool     `json:"tolerant,omitempty"` // End: the run has a small response-header-timeout: exchanges may fail under load
+	Ev         string   `json:"ev"` // Run | Shoot | Conn | Req | End
+	Run        int      `json:"run"`
+	N          int      `json:"n"`
+	R          int      `json:"r"`
+	KeepAlive  bool     `json:"keepalive"`
+	SSL        bool     `json:"ssl"`
+	Inst       string   `json:"inst"`
+	URI        string   `json:"uri"`
+	Conn       string   `json:"conn"`
+	State      string   `json:"state"`
+	Proto      int      `json:"proto"`
+	Net        int      `json:"net"`
+	OK         bool     `json:"ok"`                 // Shoot / Req: the exchange ended with a complete answer (sample proto 200, net 0)
+	Insts      []string `json:"insts,omitempty"`    // Run: the instances
+	Opts       string   `json:"opts,omitempty"`     // Run: non-default client options of the gun
+	GapMs      int      `json:"gap_ms,omitempty"`   // Run: scripted idle gap between the shots of an instance
+	Gun        string   `json:"gun,omitempty"`      // Run / End: http | connect
+	ConnectSSL bool     `json:"cssl"`               // Run / End: connect-ssl
+	Shared     int      `json:"shared"`             // Run: shared-client.client-number (0: per-instance clients)
+	Serial     bool     `json:"serial"`             // Run: the instances took turns
+	Idx        int      `json:"idx"`                // Req: 0-based index (creation = Bind order) of the instance that shot it
+	Host       string   `json:"host,omitempty"`     // Connect: Host of the CONNECT (projected)
+	TLS        bool     `json:"tls"`                // Connect: the gun spoke TLS to the proxy
+	Tolerant   bool     `json:"tolerant,omitempty"` // End: the run has a small response-header-timeout: exchanges may fail under load
 }
 
 // hwRecGun records which instance shot which request (the ammo's URI), then lets the real gun shoot.
@@ -594,6 +760,10 @@ type hwConnRun struct {
 	opts    map[string]interface{} // client options of the gun set to distinctive non-default values
 	optNote string
 	gap     time.Duration // every instance idles at least this long between two shots
+	connect bool          // connect gun through an in-process CONNECT proxy in front of the target
+	cssl    bool          // ... option connect-ssl
+	shared  int           // shared-client.client-number (0: per-instance clients)
+	serial  bool          // the instances take turns: at most one exchange in flight
 }
 
 // hwClientOpts: every documented transport / dialer option of the http gun away from its default.  The two that
@@ -635,6 +805,29 @@ func hwConnMain(w *vt.Writer, maxN, reqs int) {
 			}
 		}
 	}
+	hwConnMore(w, run)
+}
+
+// hwConnMore: connect-gun runs (one tunnel per connection) and shared-client runs (instances take turns).
+func hwConnMore(w *vt.Writer, run int) int {
+	seed := int(vt.Seed())
+	for _, ssl := range []bool{false, true} {
+		for _, cssl := range []bool{false, true} {
+			for n := 1; n <= 2; n++ {
+				run++
+				hwConnOne(w, run, hwConnRun{ssl: ssl, ka: true, n: n, r: 3 + (seed+run)%2, connect: true, cssl: cssl})
+			}
+		}
+	}
+	run++
+	hwConnOne(w, run, hwConnRun{ssl: false, ka: false, n: 2, r: 3, connect: true})
+	for i, nk := range [][2]int{{3, 2}, {4, 1}, {4, 3}, {2, 2}} {
+		run++
+		hwConnOne(w, run, hwConnRun{ssl: i%2 == 1, ka: true, n: nk[0], r: 3 + (seed+run)%2, shared: nk[1], serial: true})
+	}
+	run++
+	hwConnOne(w, run, hwConnRun{ssl: false, ka: true, n: 3, r: 3, shared: 2, serial: true, connect: true})
+	return run
 }
 
 func hwConnOne(w *vt.Writer, run int, cr hwConnRun) {
@@ -661,6 +854,15 @@ func hwConnOne(w *vt.Writer, run int, cr hwConnRun) {
 					panic(err)
 				}
 				gm := map[string]interface{}{"type": "http", "target": tgt.Addr(), "ssl": ssl}
+				var px *targets.ProxyTarget
+				if cr.connect {
+					px = targets.NewProxy("proxy", cr.cssl, tgt.Addr(), 200, rec)
+					gm["type"], gm["target"], gm["connect-ssl"] = "connect", px.Addr(), cr.cssl
+				}
+				if cr.shared > 0 {
+					gm["shared-client"] = map[string]interface{}{"enabled": true, "client-number": cr.shared}
+				}
+				var turn sync.Mutex
 				if !ka {
 					gm["disable-keep-alives"] = true
 				}
@@ -697,12 +899,20 @@ func hwConnOne(w *vt.Writer, run int, cr hwConnRun) {
 							if k > 0 && cr.gap > 0 {
 								time.Sleep(cr.gap) // a lower bound only: the instance idles AT LEAST this long
 							}
+							if cr.serial {
+								turn.Lock() // the instances take turns: a shared client carries one request at a time
+							}
 							a, ok := prov.Acquire()
+							if ok {
+								g.Shoot(a)
+								prov.Release(a)
+							}
+							if cr.serial {
+								turn.Unlock()
+							}
 							if !ok {
 								return
 							}
-							g.Shoot(a)
-							prov.Release(a)
 						}
 					}(i)
 				}
@@ -711,9 +921,13 @@ func hwConnOne(w *vt.Writer, run int, cr hwConnRun) {
 					panic(err)
 				}
 				evs := rec.Drain() // before the target is closed: closing is not the gun's doing
+				if px != nil {
+					px.Close()
+				}
 				tgt.Close()
 				_ = fs.Remove(path)
-				w.Emit(hwConnEv{Ev: "Run", Run: run, N: n, R: r, KeepAlive: ka, SSL: ssl, Insts: insts, Opts: cr.optNote, GapMs: int(cr.gap / time.Millisecond)})
+				w.Emit(hwConnEv{Ev: "Run", Run: run, N: n, R: r, KeepAlive: ka, SSL: ssl, Insts: insts, Opts: cr.optNote, GapMs: int(cr.gap / time.Millisecond),
+					Gun: map[bool]string{false: "http", true: "connect"}[cr.connect], ConnectSSL: cr.cssl, Shared: cr.shared, Serial: cr.serial})
 				sort.SliceStable(shots, func(a, b int) bool { return shots[a].Inst < shots[b].Inst })
 				for _, s := range shots {
 					s.Run = run
@@ -725,9 +939,24 @@ func hwConnOne(w *vt.Writer, run int, cr hwConnRun) {
 					by[s.URI] = s.Inst
 					okBy[s.URI] = s.OK
 				}
+				idx := map[string]int{}
+				for k, name := range insts {
+					idx[name] = k
+				}
 				for _, ev := range evs {
 					o := hwConnEv{Ev: ev.Ev, Run: run, Conn: ev.Conn, State: ev.State, URI: ev.URI}
+					if ev.Ev == "Connect" {
+						// a tunnel: identified by the ORIGIN-side connection it opened; request-target / Host projected
+						proj := func(s string) string {
+							if px != nil && s == px.Addr() {
+								return "GUNTARGET"
+							}
+							return "?" + s
+						}
+						o.Conn, o.URI, o.Host, o.TLS = ev.Origin, proj(ev.URI), proj(ev.Host), ev.TLS
+					}
 					if ev.Ev == "Req" {
+						o.Idx = idx[by[ev.URI]]
 						o.Inst = by[ev.URI] // join only: which instance shot the request this connection carried ...
 						o.OK = okBy[ev.URI] // ... and whether that exchange ended with a complete answer (its sample)
 					}
@@ -738,7 +967,8 @@ func hwConnOne(w *vt.Writer, run int, cr hwConnRun) {
 						w.Emit(hwConnEv{Ev: "Sample", Run: run, Proto: s.Proto, Net: s.Net})
 					}
 				}
-				w.Emit(hwConnEv{Ev: "End", Run: run, N: n, R: r, KeepAlive: ka, SSL: ssl, Tolerant: cr.opts != nil})
+				w.Emit(hwConnEv{Ev: "End", Run: run, N: n, R: r, KeepAlive: ka, SSL: ssl, Tolerant: cr.opts != nil,
+					Gun: map[bool]string{false: "http", true: "connect"}[cr.connect], ConnectSSL: cr.cssl})
 			}
 		}
 	}
